@@ -73,6 +73,13 @@ CentredHasZeroMean ==
 CentredCovUnchanged ==       \* covariance of the centred data = its raw (N-1)-normalised second moment = cov
     phase = "centred" => Moment(centred) = cov
 
+\* other units of measurement (x -> c x + b): the covariance is multiplied by c^2 and nothing else (the law that
+\* lets the harness place a scenario at unit scales 1e-6 ... 1e3 and far from the origin)
+Aff(d, c, b) == [i \in DOMAIN d |-> [j \in Feat |-> c * d[i][j] + b]]
+AffineLaw ==
+    \A c \in {2, -3}, b \in {0, 7} :
+        SampleCov(Aff(data, c, b)) = [a \in Feat |-> [bb \in Feat |-> Mul(R(c * c), SampleCov(data)[a][bb])]]
+
 \* ---------------- export (terminal states)
 Export == phase = "centred" =>
     PrintT(ToJson([data |-> data, mean |-> mean, cov |-> cov,
